@@ -152,8 +152,11 @@ func genElement(rng *rand.Rand) ([]byte, string) {
 	typ := elemTypes[rng.Intn(len(elemTypes))]
 	size, sclass := sizeValue(rng)
 	var body []byte
-	bkind := []string{"absent", "short", "exact", "long"}[rng.Intn(4)]
+	bkind := []string{"absent", "short", "exact", "long", "absent", "short", "exact", "long", "very-long"}[rng.Intn(9)]
 	switch bkind {
+	case "very-long":
+		// more data behind the header than any read-ahead: a size field far beyond it must still not be believed
+		body = make([]byte, 65536+rng.Intn(8000))
 	case "short":
 		body = make([]byte, rng.Intn(16))
 	case "exact":
@@ -287,7 +290,7 @@ func genMutation(rng *rand.Rand) ([]byte, string) {
 func genProtocol(rng *rand.Rand) ([]byte, string) {
 	length, sclass := sizeValue(rng)
 	typ := []uint64{desync.CaProtocolHello, desync.CaProtocolRequest, desync.CaProtocolChunk, desync.CaProtocolMissing, desync.CaProtocolGoodbye, desync.CaProtocolAbort, 0, 42}[rng.Intn(8)]
-	body := make([]byte, []int{0, 0, 7, 8, 40, 41, 300}[rng.Intn(7)])
+	body := make([]byte, []int{0, 0, 7, 8, 40, 41, 300, 0, 7, 8, 40, 41, 300, 66000, 70001}[rng.Intn(15)])
 	rng.Read(body)
 	return append(u64(length, typ), body...), "protocol|" + sclass + fmt.Sprintf("|t%x|b%d", typ&0xff, len(body))
 }
